@@ -39,6 +39,11 @@ check("C13", "exploration",
       "Race-free generated shell programs with up to ~6 concurrently live processes run whole on the simulated OS under a seeded scheduler (FIFO baseline, random, PCT, round-robin, FIFO-with-deviations) with preemption at kernel-call boundaries and short I/O; oracles: termination (deadlock = no runnable task and no timer), stdout/$?/final status equal to a reference interpreter of the generator AST and identical across schedules, wait results equal exit statuses and never precede exit, every awaited child reaped exactly once, no zombie. Sampling many interleavings is the right level because the property is quantified over schedules the test suite's single FIFO executor never produces.",
       BASE_NOTE, "deterministic simulation: seeded scheduler on the Executor seam + preemption hooks, reference-interpreter oracle", "DESIGN.md section 4 C13")
 
+check("C14", "exploration",
+      "gen|relay|sink pipelines with payload sizes around every pipe-buffer boundary up to 4x capacity, command substitutions (plain/piped/nested/in-stage, 0-3 trailing newlines, multi-byte UTF-8), here-documents and the real read built-in on a slow producer, executed under seeded schedules with preemption at every read/write, short reads, legal partial writes and simulator-sent signals to stages that installed a trap; exact byte-stream oracle (length, first deviating offset, hash) computed by the generator; deadlock/livelock detection. The property is quantified over schedules x sizes, which only controlled scheduling of the real pipe code reaches.",
+      BASE_NOTE + " SIGPIPE is not modelled by the simulated kernel, so the early-exiting-reader cases check liveness and prefix integrity only.",
+      "deterministic simulation: seeded scheduler + short-I/O/preemption/signal fault injection, exact byte-stream oracle", "DESIGN.md section 4 C14")
+
 import os
 selected = os.environ.get("MANIFEST_ONLY")
 manifest = {
